@@ -24,6 +24,22 @@ Engine T x G.  Two families of pool cases (one word per case, all configurations
 
 Every call goes through pcall(): all ndarray / list arguments are snapshotted around the call
 (a query leaves its arguments unchanged).
+
+Third-round generalisations (hidden tolerances, containers, returned arrays, module-level state, corners):
+ 'd'  (words shorter than the longest) also tuple / float32 records and a NARROW integer record (int16, the
+      word x 60); for every record of three or more samples the call sequence A, A, B, A (B: same length, same
+      first and last sample, other interior; B checked against its own identities) with every result
+      overwritten in place by the caller before the next call: the later results for A equal a private copy
+      of the first.
+ 'p'  words up to the second-longest length additionally run: the amplitude relation for records scaled by
+      1e-9 and 1e+6, the joint scaling of record and a_ref by 2^-30, narrow / unsigned integer records with
+      large steps (levels 1, 2, 3 -> 1, 40, 120 as int8; 1, 80, 240 as uint8 for non-negative words; expected:
+      the float64 record with the same samples), list / tuple records, a_ref as python int /
+      np.int64, b as np.float64 / 0-d / (1,) ndarray, n_cyc as python int / integer ndarray, the smallest
+      exponent (b = 0.06), and the A, A, B, A sequence with overwritten results for all four functions
+      (B checked by the direct sum over its excursion maxima).  Words whose record peak is 2 and that contain
+      the level 0.2 (a peak exactly ON a 10 % cut-off) are also run with that level moved to 0.2(1 -+ 1e-6):
+      nearly on the cut-off but decidedly below / above it.
 """
 from fractions import Fraction
 
@@ -47,18 +63,35 @@ NCYC = 7.5
 SHIFTS = (5, -2.5)
 ALPHA_AMP = 3.0     # amplitude scaling factor
 ALPHA_N = 4.0       # joint scaling of record and a_ref (dyadic: every threshold comparison commutes with it)
+ALPHA_AMP_EXT = (1e-9, 1e6)     # amplitude relation for a record that is tiny / large in absolute terms
+ALPHA_N_EXT = 2.0 ** -30        # joint scaling to a tiny absolute level (dyadic, 9.3e-10)
+NEAR = 1e-6         # relative distance of the "nearly on the cut-off" levels from the level 0.2
+NEAR_LO = 0.2 * (1 - NEAR)
+NEAR_HI = 0.2 * (1 + NEAR)
+NARROW_D = 60       # int16 record = word x 60 (see RESTRICTED note in run_delta)
+B_MIN = 0.06        # smallest exponent exercised (the property allows b > 0.05)
+N_INT = 8           # integer-typed number of cycles
+B_MID = 0.34        # exponent of the container / call-sequence sub-family
 
 
 def build(tier, seed):
     ld = 7 if tier == 'quick' else 8
     lw = ld - 1
     lp = 5 if tier == 'quick' else 6
-    cases = [['d', list(w)] for w in words(SIG_D, 2, ld, nonconstant=True)]
-    cases += [['d', list(w)] for w in words(SIG_W, 2, lw, nonconstant=True)]
+    # third element: 1 = the word also runs the third-round containers and call sequences (every word shorter than the longest)
+    cases = [['d', list(w), 1 if len(w) < ld else 0] for w in words(SIG_D, 2, ld, nonconstant=True)]
+    cases += [['d', list(w), 1 if len(w) < lw else 0] for w in words(SIG_W, 2, lw, nonconstant=True)]
     # power-law family: all words over {-3..3} up to lp, all words containing the 0.2 level up to lp-1,
     # all words containing the 0.02 level up to lp-2
-    cases += [['p', list(w)] for w in words(SIG_P, 2, lp, nonconstant=True)
-              if (0.2 not in w or len(w) < lp) and (TINY not in w or len(w) < lp - 1)]
+    pw = [list(w) for w in words(SIG_P, 2, lp, nonconstant=True)
+          if (0.2 not in w or len(w) < lp) and (TINY not in w or len(w) < lp - 1)]
+    # third element: 1 = the word also runs the extended sub-family (run_power_ext), i.e. every word shorter than lp
+    cases += [['p', w, 1 if len(w) < lp else 0] for w in pw]
+    # nearly on the cut-off: every word with record peak 2 that contains the level 0.2 (exactly ON the 10 % cut-off),
+    # with that level moved down / up by a relative 1e-6
+    near = [w for w in pw if 0.2 in w and max(abs(v) for v in w) == 2]
+    for lvl in (NEAR_LO, NEAR_HI):
+        cases += [['p', [lvl if v == 0.2 else v for v in w], 0] for w in near]
     return {
         'cases': cases,
         'rule': "'d': all non-constant words over {0..3} of length 2..%d and over the wide-range alphabet %s of length 2..%d "
@@ -68,22 +101,43 @@ def build(tier, seed):
                 "x b in %s (+ array b %s) x cut_off in %s x a_ref in %s, n_cyc=%s as float / 0-d ndarray / (1,) ndarray and "
                 "n_cyc = last row of the returned cycle series (same object for combined, then single), second component 2*reversed (b=0.1, 1.0) / "
                 "-rolled (b=0.34); every ndarray / list argument snapshotted around every call; "
+                "'d' words shorter than the longest also: tuple / float32 records, int16 record = word x %d ({0..3} words), and for records of >= 3 samples the sequence "
+                "A, A, B, A (B = same length and end samples, other interior, checked against its own identities) with the earlier results "
+                "overwritten in place before the later calls; 'p' words shorter than %d also: amplitude relation for the record x %s, "
+                "joint scaling of record and a_ref by 2^-30 (all b, cut_off), int8 record (levels 1,2,3 -> 1,40,120) and uint8 record "
+                "(non-negative words, levels -> 1,80,240) x {cycles, amplitude, gm, combined} vs the float64 record of the same samples, list / tuple records x {amplitude, gm, combined}, a_ref as int / np.int64, "
+                "b as np.float64 / 0-d / (1,) ndarray, n_cyc = %d as int / int64 (1,) ndarray, b = %s (inverse at the end of the record), "
+                "A, A, B, A sequences with overwritten earlier results for the four functions; every word with record peak 2 containing the "
+                "level 0.2 again with that level at 0.2(1 -+ %g); "
                 "non-trivial = word with an interior turning point ('d') / with two or more non-zero "
                 "excursions ('p')" % (ld, list(SIG_W), lw, TINY_SCALE, lp, lp - 1, TINY, lp - 2, list(BS), list(B_ARR), list(CUTS),
-                                      list(AREFS), NCYC),
+                                      list(AREFS), NCYC, NARROW_D, lp, list(ALPHA_AMP_EXT), N_INT, B_MIN, NEAR),
         'bounds': {'delta_alphabet': SIG_D, 'delta_max_len': ld, 'delta_wide_alphabet': SIG_W, 'delta_wide_max_len': lw,
                    'delta_tiny_scale': TINY_SCALE, 'power_alphabet': SIG_P, 'power_max_len': lp,
                    'power_max_len_with_0.2': lp - 1, 'power_max_len_with_%s' % TINY: lp - 2,
                    'b': BS, 'b_array': B_ARR, 'cut_off': CUTS, 'a_ref': AREFS, 'n_cyc': NCYC,
                    'n_cyc_containers': ['float', '0-d ndarray', '(1,) ndarray', 'last row of the cycle series'], 'offsets': SHIFTS,
-                   'alpha_amp': ALPHA_AMP, 'alpha_n': ALPHA_N},
+                   'alpha_amp': ALPHA_AMP, 'alpha_n': ALPHA_N,
+                   'delta_containers': ['float64', 'int64', 'list', 'tuple', 'float32', 'int16 (word x %d)' % NARROW_D],
+                   'delta_ext_max_len': ld - 1, 'delta_wide_ext_max_len': lw - 1, 'power_ext_max_len': lp - 1, 'alpha_amp_ext': ALPHA_AMP_EXT, 'alpha_n_ext': ALPHA_N_EXT,
+                   'power_record_containers': ['float64', 'int64', 'int8 (levels 1, 40, 120)', 'uint8 (non-negative words, levels 1, 80, 240)', 'list',
+                                               'tuple'],
+                   'a_ref_containers': ['float', 'int', 'np.int64'], 'b_containers': ['float', 'np.float64', '0-d ndarray',
+                                                                                    '(1,) ndarray', '(2,) ndarray'],
+                   'n_cyc_int': N_INT, 'b_min': B_MIN, 'near_cutoff_levels': [NEAR_LO, NEAR_HI],
+                   'call_sequences': ['A, A, B, A with the earlier results overwritten in place (all six functions)']},
         'required_classes': ['delta:float', 'delta:int', 'delta:list', 'delta:offset', 'delta:tiny-scale', 'plateau', 'monotone',
                              'interior-turning', 'last-move-up', 'last-move-down', 'first-move-down',
                              'small-step-far-from-start',
                              'inverse-checked', 'inverse-interior-index', 'sub-cutoff-peak', 'cutoff-exact-tie',
                              'no-cutoff-peak-below-1%', 'n_cyc:0-d', 'n_cyc:(1,)', 'n_cyc:last-row', 'inverse-array-b',
                              'scalar-b', 'array-b', 'int-input', 'gm-different-components',
-                             'first-excursion-max-at-0', 'zero-valued-sample'],
+                             'first-excursion-max-at-0', 'zero-valued-sample',
+                             'delta:tuple', 'delta:float32', 'delta:int16', 'delta:A-B-A', 'delta:two-samples',
+                             'delta:single-step', 'near-cutoff-below', 'near-cutoff-above', 'last-sample-is-excursion-max',
+                             'power:tiny-amplitude', 'power:large-amplitude', 'power:tiny-joint-scale', 'power:int8', 'power:uint8',
+                             'power:list', 'power:tuple', 'a_ref:int', 'b:np.float64', 'b:0-d', 'b:(1,)', 'n_cyc:int',
+                             'n_cyc:int-ndarray', 'b:smallest', 'power:A-B-A'],
         'assumptions': ['sample values outside the alphabets and lengths above the bounds are not examined',
                         'b, cut_off, a_ref, n_cyc only on the menu',
                         'turning points of a plateau: any sample of an extremal plateau is accepted as "the peak"',
@@ -91,7 +145,16 @@ def build(tier, seed):
                         'combined-amplitude function is exercised with scalar b only (documented as float)',
                         'dynamic range of a record: steps down to 2.4e-7 of the distance from the first sample '
                         '(wide-range alphabet) and absolute amplitudes down to 1e-9 (scaled record); nothing finer',
-                        'n_cyc containers other than float / 0-d / (1,) / (len(b),) float64 ndarrays are not examined'],
+                        'n_cyc containers other than float / int / 0-d / (1,) / (len(b),) ndarrays are not examined',
+                        'float32 records: delta family only (exact there); the power-law functions return float32-accurate '
+                        'results for float32 records on the unchanged tree, not examined',
+                        'unsigned records are not given to the delta functions (TypeError on the unchanged tree), narrow integer '
+                        'records only with steps whose pairwise products fit the type (the product of successive differences wraps '
+                        'on the unchanged tree: reported separately)',
+                        'joint scaling by 2^-30 only where no non-zero excursion maximum lies below the cut-off (the library '
+                        'replaces such maxima by the absolute level 1e-14: reported separately); 2^+20 not examined',
+                        'list / tuple records are not given to calc_n_cyc_array_w_power_law (TypeError on the unchanged tree); '
+                        'b as list / tuple is not accepted by any of the functions'],
     }
 
 
@@ -180,7 +243,79 @@ def exact_identities(vals):
     return tv, net, (1 if moves[-1] > 0 else -1), (1 if moves[0] > 0 else -1)
 
 
-def run_delta(r, w):
+def check_delta_result(r, name, sub, out, n, allowed, c_tv, c_net, last):
+    """One result of a peak-only function against the exact identities of the samples passed; returns the series or None."""
+    s = as_series(out, n)
+    if s is None:
+        r.fail(name + '.length', sub, 'result is not a series of the record length %d' % n, observed=out)
+        return None
+    ftv = float(c_tv)
+    r.n_cmp += 1
+    off = [i for i in range(n) if i not in allowed and s[i] != 0]
+    r.expect(name + '.zero-off-peaks', sub, not off, 'non-zero entries away from turning points at %r' % (off,),
+             observed=s, expected='zeros outside %r' % (sorted(allowed),))
+    if name == 'delta':
+        r.expect_close('delta.abs-sum', sub, float(np.sum(np.abs(s))), ftv, rtol=1e-9)
+        r.expect_close('delta.signed-sum', sub, abs(float(np.sum(s))), abs(float(c_net)), rtol=1e-9, scale=ftv)
+    else:
+        r.expect_close('cyclic.sum', sub, float(np.sum(s)), float(c_tv / 2 + c_net / 2 * last), rtol=1e-9, scale=ftv)
+    return s
+
+
+def delta_sequences(r, w, allowed, tv, net, last):
+    """Module-level state and returned arrays: the calls A, A, B, A on float records, B of the same length and with the same first
+    and last sample as A but another interior (records of two samples: A, A).  The caller overwrites, in place, the array the
+    first call returned before it makes the later calls; B is checked against its own identities, the last result must equal a
+    private copy of the first."""
+    n = len(w)
+    alphabet = SIG_D if all(v in SIG_D for v in w) else SIG_W
+    wb = None
+    if n >= 3:
+        for k in (1, 2):
+            cand = [w[0]] + [alphabet[(alphabet.index(v) + k) % len(alphabet)] for v in w[1:-1]] + [w[-1]]
+            if len(set(cand)) > 1:
+                wb = cand
+                break
+    A = np.array(w, dtype=float)
+    if wb is not None:
+        r.cls('delta:A-B-A')
+        B = np.array(wb, dtype=float)
+        b_tv, b_net, b_last, _ = exact_identities(wb)
+        b_allowed = turning(wb)[1]
+    for name, fn in (('delta', pc.determine_peaks_only_delta_series), ('cyclic', pc.determine_pseudo_cyclic_peak_only_series)):
+        sub = {'w': w, 'sequence': 'A,A' if wb is None else 'A,A,B,A', 'fn': name}
+        r.states += 1
+        ok, out1 = pcall(r, name + '.returns', sub, fn, A)
+        s1 = as_series(out1, n) if ok else None
+        if s1 is None:
+            continue        # reported by the single calls
+        keep = np.array(s1)
+        if isinstance(out1, np.ndarray) and out1.flags.writeable:
+            out1[...] = 77      # the caller re-uses the array it got back
+        if wb is not None:
+            # A again at once (a result handed out twice would now hold the caller's values), then B
+            ok, out2 = pcall(r, name + '.returns', dict(sub, call='second'), fn, A)
+            if ok:
+                r.transitions += 1
+                r.expect_close(name + '.repeatable', dict(sub, call='second'), out2, keep, rtol=1e-12, scale=float(tv),
+                               what='the same record gives another result after the first result was overwritten in place by '
+                                    'the caller')
+                if isinstance(out2, np.ndarray) and out2.flags.writeable:
+                    out2[...] = 77
+            sb = dict(sub, B=wb)
+            ok, outb = pcall(r, name + '.returns', sb, fn, B)
+            if ok:
+                check_delta_result(r, name, sb, outb, n, b_allowed, b_tv, b_net, b_last)
+        ok, out3 = pcall(r, name + '.returns', dict(sub, call='last'), fn, A)
+        if ok:
+            r.transitions += 1
+            r.expect_close(name + '.repeatable', sub, out3, keep, rtol=1e-12, scale=float(tv),
+                           what='the same record gives another result after the first result was overwritten in place by the '
+                                'caller' + ('' if wb is None else ' and the function was called on another record of the same length '
+                                                                  'and end samples'))
+
+
+def run_delta(r, w, ext=False):
     n = len(w)
     rs = compress(w)
     firsts, allowed = turning(w)
@@ -199,14 +334,36 @@ def run_delta(r, w):
     # a step that is tiny relative to the distance the series has reached from its first sample
     if any(0 < abs(w[i + 1] - w[i]) * 10 ** 5 <= abs(w[i] - w[0]) for i in range(n - 1)):
         r.cls('small-step-far-from-start')
+    if n == 2:
+        r.cls('delta:two-samples')
+    if len(rs) == 2:
+        r.cls('delta:single-step')      # exactly two levels, one step
     configs = [('float', 0, 1), ('float', 5, 1), ('float', -2.5, 1), ('int', 0, 1), ('int', 5, 1), ('list', 0, 1),
                ('float', 0, TINY_SCALE)]
+    if ext:
+        configs += [('tuple', 0, 1), ('float32', 0, 1)]
+    if ext and max(w) * NARROW_D < 2 ** 15:
+        # RESTRICTED: a narrow integer record only with steps whose pairwise products fit the type (60 * 3 = 180, 180^2 < 2^15).
+        # On the unchanged tree the peak search multiplies successive differences in the dtype of the record, so e.g.
+        # np.array([0, 256, 0], dtype=np.int16) (product -65536 wraps to 0) gives an all-zero delta series (total variation 512);
+        # unsigned records raise TypeError in np.ediff1d.  Reported to the maintainer of this check; widen the factor /
+        # add an unsigned record when repaired.
+        configs.append(('int16', 0, NARROW_D))
     base = {}
     for kind, sh, sc in configs:
         if kind == 'float':
             arr = np.array(w, dtype=float) * sc + sh
         elif kind == 'int':
             arr = np.array(w, dtype=np.int64) + int(sh)
+        elif kind == 'int16':
+            arr = (np.array(w, dtype=np.int64) * sc).astype(np.int16)
+        elif kind == 'float32':
+            arr = np.array(w, dtype=np.float32)
+            if arr.astype(float).tolist() != [float(v) for v in w]:
+                r.disabled['word not exactly representable in float32'] += 1
+                continue
+        elif kind == 'tuple':
+            arr = tuple(float(v) for v in w)
         else:
             arr = [float(v) for v in w]
         if sc == 1:
@@ -218,8 +375,8 @@ def run_delta(r, w):
             if c_last != last or len(set(arr.tolist())) != len(set(w)):
                 r.disabled['scaled record does not preserve the order of the word'] += 1
                 continue
-            r.cls('delta:tiny-scale')
-        want_cyc = c_tv / 2 + c_net / 2 * last
+            if kind == 'float':
+                r.cls('delta:tiny-scale')
         ftv = float(c_tv)
         r.states += 1
         r.cls('delta:' + kind)
@@ -233,20 +390,8 @@ def run_delta(r, w):
             ok, out = pcall(r, name + '.returns', sub, fn, arr)
             if not ok:
                 continue
-            s = as_series(out, n)
-            if s is None:
-                r.fail(name + '.length', sub, 'result is not a series of the record length %d' % n, observed=out)
-                continue
-            r.n_cmp += 1
-            off = [i for i in range(n) if i not in allowed and s[i] != 0]
-            r.expect(name + '.zero-off-peaks', sub, not off, 'non-zero entries away from turning points at %r' % (off,),
-                     observed=s, expected='zeros outside %r' % (sorted(allowed),))
-            if name == 'delta':
-                r.expect_close('delta.abs-sum', sub, float(np.sum(np.abs(s))), ftv, rtol=1e-9)
-                r.expect_close('delta.signed-sum', sub, abs(float(np.sum(s))), abs(float(c_net)), rtol=1e-9, scale=ftv)
-            else:
-                r.expect_close('cyclic.sum', sub, float(np.sum(s)), float(want_cyc), rtol=1e-9, scale=ftv)
-            if sc != 1:
+            s = check_delta_result(r, name, sub, out, n, allowed, c_tv, c_net, last)
+            if s is None or sc != 1:
                 continue
             if sh == 0:
                 base[(kind, name)] = s
@@ -260,6 +405,8 @@ def run_delta(r, w):
                     r.transitions += 1
                     r.expect_close(name + '.input-type', {'w': w, 'input': kind}, base[(kind, name)],
                                    base[('float', name)], rtol=1e-9, scale=ftv)
+    if ext:
+        delta_sequences(r, w, allowed, tv, net, last)
 
 
 # ------------------------------------------------------------------------------ power-law family
@@ -313,7 +460,7 @@ def last_row_sequence(r, sub, x, n, n_out, ns, a_ref, b):
              'the cycle series changed while its last row was used as n_cyc', observed=after, expected=ns)
 
 
-def run_power(r, w):
+def run_power(r, w, ext=False):
     n = len(w)
     x = np.array(w, dtype=float)
     exc = excursions(w)
@@ -324,6 +471,8 @@ def run_power(r, w):
         r.cls('zero-valued-sample')
     if exc and exc[0][0][0] == 0 and abs(w[0]) == exc[0][1] and len(exc[0][0]) > 1:
         r.cls('first-excursion-max-at-0')
+    if exc and exc[-1][0][-1] == n - 1 and abs(w[-1]) == exc[-1][1]:
+        r.cls('last-sample-is-excursion-max')       # the last half cycle peaks on the final sample
     is_int = all(float(v).is_integer() for v in w)
     ys = [('2*reversed', 2.0 * x[::-1].copy()), ('-rolled', -np.roll(x, 1))]
     n_cache = {}
@@ -343,6 +492,10 @@ def run_power(r, w):
                     rounding = True
                 elif p < thr:
                     below.append(idx)
+                if cut > 0 and pk == NEAR_LO and idx in below:
+                    r.cls('near-cutoff-below')
+                if cut > 0 and pk == NEAR_HI and idx not in below:
+                    r.cls('near-cutoff-above')
             for a_ref in AREFS:
                 sub = {'w': w, 'b': b, 'cut_off': cut, 'a_ref': a_ref}
                 r.states += 1
@@ -561,15 +714,215 @@ def run_power(r, w):
             ai = check_series(r, 'powerlaw.amp', sub, out, n)
             if ai is not None:
                 r.expect_close('powerlaw.int-input', sub, ai, a_cache[b], rtol=1e-9)
+    if ext:
+        run_power_ext(r, w, x, exc, amax, is_int, n_cache, a_cache)
+
+
+# ------------------------------------------------------------------------------ power-law family: extended sub-family
+def _rel(r, claim, sub, fn, args, kw, n, want, scale=None, what=''):
+    """call (purity-checked), series checks, comparison with `want` (None: no comparison); returns the series or None.
+    The series checks are filed under the function's own claim (powerlaw.n / .amp / .gm / .combined)."""
+    base = {im.calc_n_cyc_array_w_power_law: 'powerlaw.n', im.calc_cyc_amp_array_w_power_law: 'powerlaw.amp',
+            im.calc_cyc_amp_gm_arrays_w_power_law: 'powerlaw.gm',
+            im.calc_cyc_amp_combined_arrays_w_power_law: 'powerlaw.combined'}[fn]
+    ok, out = pcall(r, base + '.returns', sub, fn, *args, **kw)
+    if not ok:
+        return None
+    ser = check_series(r, base, sub, out, n)
+    if ser is not None and want is not None:
+        r.transitions += 1
+        r.expect_close(claim, sub, ser, want, rtol=1e-9, scale=scale, what=what)
+    return ser
+
+
+def run_power_ext(r, w, x, exc, amax, is_int, n_cache, a_cache):
+    """Hidden tolerances, containers / dtypes, returned arrays and module-level state (see the module docstring).  Every
+    expectation is a relation to the float64 runs of run_power (n_cache / a_cache) or, for the interposed record B, the direct
+    sum over its excursion maxima."""
+    n = len(w)
+    N_FN, A_FN = im.calc_n_cyc_array_w_power_law, im.calc_cyc_amp_array_w_power_law
+    G_FN, C_FN = im.calc_cyc_amp_gm_arrays_w_power_law, im.calc_cyc_amp_combined_arrays_w_power_law
+    # ---- (a) absolute level of the record: amplitude relation for a tiny / large record, joint scaling to a tiny level
+    for b in BS:
+        if b in a_cache:
+            for alpha in ALPHA_AMP_EXT:
+                r.cls('power:tiny-amplitude' if alpha < 1 else 'power:large-amplitude')
+                r.states += 1
+                _rel(r, 'powerlaw.amp-scaling', {'w': w, 'b': b, 'n_cyc': NCYC, 'alpha': alpha}, A_FN, (alpha * x, NCYC, b), {}, n,
+                     alpha * a_cache[b])
+        for cut in CUTS:
+            key = (b, cut, AREFS[0])
+            if key not in n_cache:
+                continue
+            # RESTRICTED: with a positive cut-off only records without a zero sample and without an excursion maximum below the
+            # cut-off.  On the unchanged tree such maxima (and zero-valued turning points) are replaced by the ABSOLUTE level
+            # 1e-14, which is no longer negligible next to a_ref ~ 5e-10: calc_n_cyc_array_w_power_law([3, -0.2] * 2^-30,
+            # 0.5 * 2^-30, b=1, cut_off=0.1)[-1] = 3.0000107 instead of 3.00000000000001 (reported; lift when repaired).
+            if cut > 0 and (any(v == 0 for v in w) or any(Fraction(pk) < Fraction(cut) * Fraction(amax) for idx, pk in exc)):
+                r.disabled['tiny joint scaling: sub-cut-off or zero-valued peak (library uses the absolute level 1e-14)'] += 1
+                continue
+            r.cls('power:tiny-joint-scale')
+            r.states += 1
+            ref = n_cache[key]
+            _rel(r, 'powerlaw.n-scaling', {'w': w, 'b': b, 'cut_off': cut, 'a_ref': AREFS[0], 'alpha': ALPHA_N_EXT}, N_FN,
+                 (ALPHA_N_EXT * x, ALPHA_N_EXT * AREFS[0], b), {'cut_off': cut}, n, ref, scale=float(ref[-1]))
+    b = B_MID
+    a1 = a_cache.get(b)
+    nref = n_cache.get((b, 0.1, 2.0))       # cut_off 0.1, a_ref 2.0
+    nref0 = n_cache.get((b, 0.0, 2.0))
+    if a1 is None or nref is None or nref0 is None:
+        return      # the float64 runs failed: reported there
+    two_b = 2.0 ** b
+    # ---- (b) narrow / unsigned integer records with large steps: the levels 1, 2, 3 of the word become 1, k/3, k (int8: k = 120,
+    # uint8, non-negative words: k = 240; squares and products of the samples do not fit the type, the level 1 is a peak below a
+    # 10 % cut-off).  Expected: the float64 record with the same samples, whose end-of-record values are checked against the direct
+    # sums over its excursion maxima.
+    if is_int:
+        recs = [('int8', np.int8, 120)]
+        if min(w) >= 0:
+            recs.append(('uint8', np.uint8, 240))
+        for kind, dt, k in recs:
+            lv = {0: 0, 1: 1, 2: k // 3, 3: k}
+            wi = [(1 if v > 0 else -1) * lv[abs(int(v))] for v in w]
+            if len(set(wi)) < 2:
+                continue
+            xi = np.array(wi, dtype=dt)
+            xf = np.array(wi, dtype=float)
+            r.cls('power:' + kind)
+            r.states += 1
+            sub = {'w': w, 'b': b, 'input': kind, 'samples': wi}
+            a_ref = k // 2
+            exi = excursions(wi)
+            top = max(pk for idx, pk in exi)
+            kept = [pk for idx, pk in exi if Fraction(pk) >= Fraction(0.1) * top]
+            nf_ = _rel(r, 'powerlaw.n', dict(sub, input='float64', cut_off=0.1, a_ref=a_ref), N_FN, (xf, float(a_ref), b),
+                       {'cut_off': 0.1}, n, None)
+            af_ = _rel(r, 'powerlaw.amp', dict(sub, input='float64', n_cyc=NCYC), A_FN, (xf, NCYC, b), {}, n, None)
+            if nf_ is None or af_ is None:
+                continue
+            nf_, af_ = np.array(nf_), np.array(af_)
+            r.expect_close('powerlaw.n.direct', dict(sub, input='float64'), float(nf_[-1]),
+                           sum(0.5 * (pk / float(a_ref)) ** (1.0 / b) for pk in kept), rtol=1e-9,
+                           what='final cycles vs sum over excursion maxima not below the cut-off')
+            r.expect_close('powerlaw.amp.direct', dict(sub, input='float64'), float(af_[-1]),
+                           (sum(pk ** (1.0 / b) for idx, pk in exi) / 2.0 / NCYC) ** b, rtol=1e-9,
+                           what='final amplitude vs power mean over all excursion maxima')
+            _rel(r, 'powerlaw.n.int-input', dict(sub, cut_off=0.1, a_ref=a_ref), N_FN, (xi, a_ref, b), {'cut_off': 0.1}, n, nf_,
+                 scale=float(nf_[-1]))
+            _rel(r, 'powerlaw.amp.int-input', dict(sub, n_cyc=NCYC), A_FN, (xi, NCYC, b), {}, n, af_)
+            _rel(r, 'powerlaw.gm.int-input', dict(sub, n_cyc=NCYC), G_FN, (xi, xi.copy(), NCYC, b), {}, n, af_)
+            _rel(r, 'powerlaw.combined.int-input', dict(sub, n_cyc=NCYC), C_FN, (xi, xi.copy(), NCYC, b), {}, n, two_b * af_)
+        xi = np.array([int(v) for v in w], dtype=np.int64)
+        for nm, ar in (('int', 2), ('np.int64', np.int64(2))):
+            r.cls('a_ref:int')
+            _rel(r, 'powerlaw.n.int-input', {'w': w, 'b': b, 'cut_off': 0.1, 'input': 'int64', 'a_ref': nm}, N_FN, (xi, ar, b),
+                 {'cut_off': 0.1}, n, nref, scale=float(nref[-1]))
+    for kind, mk in (('list', lambda: [float(v) for v in w]), ('tuple', lambda: tuple(float(v) for v in w))):
+        r.cls('power:' + kind)
+        r.states += 1
+        sub = {'w': w, 'b': b, 'n_cyc': NCYC, 'input': kind}
+        _rel(r, 'powerlaw.amp.input-type', sub, A_FN, (mk(), NCYC, b), {}, n, a1)
+        _rel(r, 'powerlaw.gm.input-type', sub, G_FN, (mk(), mk(), NCYC, b), {}, n, a1)
+        _rel(r, 'powerlaw.combined.input-type', sub, C_FN, (mk(), mk(), NCYC, b), {}, n, two_b * a1)
+    # ---- (b) the exponent held in a numpy scalar / a 0-d / a one-element ndarray
+    for nm, bb in (('np.float64', np.float64(b)), ('0-d', np.array(b)), ('(1,)', np.array([b]))):
+        r.cls('b:' + nm)
+        r.states += 1
+        sub = {'w': w, 'b': b, 'b_container': nm}
+        _rel(r, 'powerlaw.n.b-container', dict(sub, a_ref=2.0, cut_off=0.0), N_FN, (x.copy(), 2.0, bb), {'cut_off': 0.0}, n, nref0,
+             scale=float(nref0[-1]))
+        _rel(r, 'powerlaw.amp.b-container', dict(sub, n_cyc=NCYC), A_FN, (x.copy(), NCYC, bb), {}, n, a1)
+        _rel(r, 'powerlaw.gm.b-container', dict(sub, n_cyc=NCYC), G_FN, (x.copy(), x.copy(), NCYC, bb), {}, n, a1)
+        if nm == 'np.float64':      # the combined measure documents b as a float
+            _rel(r, 'powerlaw.combined.b-container', dict(sub, n_cyc=NCYC), C_FN, (x.copy(), x.copy(), NCYC, bb), {}, n, two_b * a1)
+    # ---- (b) an integer-typed number of cycles
+    sub = {'w': w, 'b': b, 'n_cyc': float(N_INT)}
+    base_a = _rel(r, 'powerlaw.amp', sub, A_FN, (x.copy(), float(N_INT), b), {}, n, None)
+    base_c = _rel(r, 'powerlaw.combined-identical', sub, C_FN, (x.copy(), x.copy(), float(N_INT), b), {}, n,
+                  None if base_a is None else two_b * base_a)
+    for nm, nn in (('int', N_INT), ('int-ndarray', np.array([N_INT]))):
+        r.cls('n_cyc:' + nm)
+        r.states += 1
+        sub = {'w': w, 'b': b, 'n_cyc': N_INT, 'n_cyc_container': nm}
+        if base_a is not None:
+            _rel(r, 'powerlaw.amp.n_cyc-container', sub, A_FN, (x.copy(), nn, b), {}, n, np.array(base_a))
+        if base_c is not None:
+            _rel(r, 'powerlaw.combined.n_cyc-container', sub, C_FN, (x.copy(), x.copy(), nn, b), {}, n, np.array(base_c))
+    # ---- (f) the smallest exponent: mutually inverse at the end of the record (no cut-off)
+    r.cls('b:smallest')
+    r.states += 1
+    sub = {'w': w, 'b': B_MIN, 'cut_off': 0.0, 'a_ref': 2.0}
+    ns = _rel(r, 'powerlaw.n', sub, N_FN, (x.copy(), 2.0, B_MIN), {'cut_off': 0.0}, n, None)
+    if ns is not None and r.expect('powerlaw.inverse', sub, float(ns[-1]) > 0, 'final equivalent number of cycles is not positive',
+                                   observed=ns):
+        nf = float(ns[-1])
+        am = _rel(r, 'powerlaw.amp', dict(sub, N=nf), A_FN, (x.copy(), nf, B_MIN), {}, n, None)
+        if am is not None:
+            r.transitions += 1
+            r.expect_close('powerlaw.inverse', sub, float(am[-1]), 2.0, rtol=1e-9,
+                           what='amplitude for N = cycles(a_ref) at the end of the record, smallest exponent')
+    # ---- (d), (e) returned arrays and module-level state: A, A, B, A with the earlier results overwritten in place by the caller.
+    # B: same length, same first and last sample, every interior sample v replaced by -v -+ 0.5 (never a level of the alphabet,
+    # so B is neither constant nor A); B is checked at the end of the record against the direct sums over its excursion maxima.
+    A, A2 = x.copy(), x.copy()
+    if n >= 3:
+        r.cls('power:A-B-A')
+        wb = [w[0]] + [(-v - 0.5 if v >= 0 else -v + 0.5) for v in w[1:-1]] + [w[-1]]
+        B, B2 = np.array(wb, dtype=float), np.array(wb, dtype=float)
+        excb = excursions(wb)
+        want_n = sum(0.5 * (pk / 2.0) ** (1.0 / b) for idx, pk in excb)
+        want_a = (sum(pk ** (1.0 / b) for idx, pk in excb) / 2.0 / NCYC) ** b
+    else:
+        wb = None
+    seqs = (('n', N_FN, lambda u, v: (u, 2.0, b), {'cut_off': 0.0}, lambda: want_n),
+            ('amp', A_FN, lambda u, v: (u, NCYC, b), {}, lambda: want_a),
+            ('gm', G_FN, lambda u, v: (u, v, NCYC, b), {}, lambda: want_a),
+            ('combined', C_FN, lambda u, v: (u, v, NCYC, b), {}, lambda: two_b * want_a))
+    for name, fn, mk, kw, want in seqs:
+        sub = {'w': w, 'b': b, 'sequence': 'A,A' if wb is None else 'A,A,B,A', 'fn': name}
+        r.states += 1
+        ok, out1 = pcall(r, 'powerlaw.%s.returns' % name, sub, fn, *mk(A, A2), **kw)
+        s1 = check_series(r, 'powerlaw.' + name, sub, out1, n) if ok else None
+        if s1 is None:
+            continue
+        keep = np.array(s1)
+        if isinstance(out1, np.ndarray) and out1.flags.writeable:
+            out1[...] = 77.0    # the caller re-uses the array it got back
+        if wb is not None:
+            # A again at once (a result handed out twice would now hold the caller's values), then B
+            ok, out2 = pcall(r, 'powerlaw.%s.returns' % name, dict(sub, call='second'), fn, *mk(A, A2), **kw)
+            if ok:
+                r.transitions += 1
+                r.expect_close('powerlaw.%s.repeatable' % name, dict(sub, call='second'),
+                               as_series(out2, n) if as_series(out2, n) is not None else out2, keep, rtol=1e-12,
+                               what='the same record gives another result after the first result was overwritten in place by '
+                                    'the caller')
+                if isinstance(out2, np.ndarray) and out2.flags.writeable:
+                    out2[...] = 77.0
+            sb = dict(sub, B=wb)
+            ok, outb = pcall(r, 'powerlaw.%s.returns' % name, sb, fn, *mk(B, B2), **kw)
+            sbs = check_series(r, 'powerlaw.' + name, sb, outb, n) if ok else None
+            if sbs is not None:
+                r.expect_close('powerlaw.%s.direct' % name, sb, float(sbs[-1]), want(), rtol=1e-9,
+                               what='end-of-record value of the interposed record B vs the direct sum over its excursion maxima')
+        ok, out3 = pcall(r, 'powerlaw.%s.returns' % name, dict(sub, call='last'), fn, *mk(A, A2), **kw)
+        if ok:
+            r.transitions += 1
+            r.expect_close('powerlaw.%s.repeatable' % name, sub, as_series(out3, n) if as_series(out3, n) is not None else out3,
+                           keep, rtol=1e-12,
+                           what='the same record gives another result after the first result was overwritten in place by the '
+                                'caller' + ('' if wb is None else ' and the function was called on another record of the same '
+                                                                  'length and end samples'))
 
 
 def run_case(case):
     r = Res()
     kind, w = case[0], list(case[1])
+    ext = bool(len(case) > 2 and case[2])
     if kind == 'd':
-        run_delta(r, w)
+        run_delta(r, w, ext=ext)
     else:
-        run_power(r, w)
+        run_power(r, w, ext=ext)
     return r
 
 
